@@ -174,3 +174,39 @@ def canon_guess(text):
     import vetlib
     e = vetlib.parse_sexp(text)
     return int(e[1])
+
+
+# ---------------------------------------------------------------------------------------------------------------
+# the store-version rule (coq/StoreVersion.v): what `cargo vet [--locked]` does with the version config.toml records
+
+VERSION_IMPORTS = ["Base", "Extracted", "Show", "StoreVersion", "ShowStoreVersion"]
+CURRENT_VERSION = 1000          # the test build of cargo-vet pretends to be 1.0 (format.rs StoreVersion::current)
+
+
+def _enc(text):
+    import re
+    m = re.search(r'^\[cargo-vet\]\s*\nversion\s*=\s*"(\d+)\.(\d+)"', text or "", re.M)
+    if not m:
+        return 4              # no [cargo-vet] table: read as 0.4
+    return int(m.group(1)) * 1000 + int(m.group(2))
+
+
+def version_case(step, pre_config_text):
+    """-> (coq expression, (accepted?, version written or None)) for check steps on a store whose version is not the current one"""
+    if step.cls not in ("check", "check-locked"):
+        return None
+    stored = _enc(pre_config_text)
+    if stored == CURRENT_VERSION:
+        return None
+    locked = step.cls == "check-locked"
+    expr = f"show_acquire {CURRENT_VERSION}%N {stored}%N {coq(locked)}"
+    refused = ("OutdatedStore" in step.outcome or "NewerStore" in step.outcome or "outdated" in step.outcome.lower()
+               or "newer" in step.outcome.lower() or "version" in step.outcome.lower()) and step.outcome != "ok"
+    wrote = _enc((step.s.get("files") or {}).get("config")) if step.outcome == "ok" and not locked else None
+    return expr, ("refused" if refused else ("ok" if step.outcome == "ok" else "other"), wrote)
+
+
+def canon_version(text):
+    import vetlib
+    e = vetlib.parse_sexp(text)
+    return (e[1], int(e[2]) if len(e) > 2 else None)
